@@ -564,6 +564,43 @@ func runC16(c *Ctx) {
 	checkErrorsReturnedX(c, "R16.4", bc, 0, nil, eofAbsorb)
 	checkErrorsReturned(c, "R16.4", fc, 0, nil)
 	checkErrorsReturned(c, "R16.4", fp, 0, nil)
+	for _, fn := range []*ssa.Function{pc, bc, fc, fp} {
+		checkErrorNotOverwritten(c, "R16.4", fn, 0)
+		checkDeferredErrAssign(c, "R16.4", fn)
+	}
+	// a failed parse delivers nothing: the consumer touches its destination (reflect mutators, stores through the
+	// destination pointer) behind a pipe only once that pipe's error was seen to be nil
+	for _, fn := range []*ssa.Function{fc} {
+		for _, ci := range allCalls(fn) {
+			call, isCall := ci.(*ssa.Call)
+			if !isCall || call.Parent() != fn || calleeName(&call.Call) != "rt.pipeCSV" {
+				continue
+			}
+			ev := errValueOf(call)
+			if ev == nil {
+				continue
+			}
+			isErr := func(v ssa.Value) bool {
+				ok, _ := allOrigins(v, oIsValue(ev))
+				return v == ev || ok
+			}
+			for _, mi := range allCalls(fn) {
+				m, isC := mi.(*ssa.Call)
+				if !isC || m.Parent() != fn {
+					continue
+				}
+				n := calleeName(&m.Call)
+				switch n {
+				case "reflect.Copy", "(reflect.Value).Set", "(reflect.Value).SetLen", "(reflect.Value).SetCap", "(reflect.Value).Grow", "(reflect.Value).SetBytes", "(reflect.Value).SetString":
+				default:
+					continue
+				}
+				if pathExists(fn, call, m, factNil(isErr, true), nil) {
+					c.obD("R16.4", m, "destination-untouched-by-a-failed-parse", false, "the destination is modified behind a pipe only after that pipe's error was seen to be nil (malformed input yields the parser's error, not the records parsed so far)", baseName(n)+" can run although pipeCSV ("+c.P.InstrPos(call)+") failed")
+				}
+			}
+		}
+	}
 	// the piped path ends with Flush then Error
 	flushes := callsIn(pc, "(rt.CSVWriter).Flush")
 	errs := callsIn(pc, "(rt.CSVWriter).Error")
